@@ -53,7 +53,7 @@ fn ref_sections(times: &[f64], first_idx: usize, len: f64) -> Option<usize> {
 fn settings_menu(dst: u8, rich: bool) -> Vec<Setting> {
     let mut v = vec![Setting::nm(), Setting::bits(settings::DT), Setting::bits(settings::HR), Setting { rate: Some(0.75), ..Setting::nm() }];
     if dst == 0 {
-        v.extend([Setting::bits(settings::FL), Setting::bits(settings::FL | settings::TD), Setting::bits(settings::FL | settings::RX), Setting::bits(settings::AP | settings::HD | settings::FL)]);
+        v.extend([Setting::bits(settings::FL), Setting::bits(settings::FL | settings::TD), Setting::bits(settings::FL | settings::RX), Setting::bits(settings::AP | settings::HD | settings::FL), Setting::bits(settings::FL | settings::TD | settings::RX), Setting::bits(settings::TD | settings::AP)]);
     }
     if dst == 3 {
         v.extend([Setting::bits(settings::KEY7), Setting::mods(ModSpec::Invert), Setting::mods(ModSpec::HoIn(Some(5.0)))]);
